@@ -554,8 +554,127 @@ Proof.
     pose proof (dec_enc_chmask m Hm) as Hd. unfold chmask_bytes, enc_chmask in Hd |- *. cbn [le_bytes] in Hd |- *.
     cbn [app masks_loop]. rewrite Hd. fold (nz m). fold chmask_bytes.
     destruct (nz m) eqn:Enz.
-    + rewrite IH by lia. unfold strip_tail. rewrite (strip_nz_mid [] m r Enz). cbn [app].
+    + rewrite IH by lia. unfold strip_tail. pose proof (strip_nz_mid [] m r Enz) as Es. cbn [app] in Es. rewrite Es.
       rewrite <- !app_assoc. cbn [app]. destruct (strip_zero_masks r); reflexivity.
     + rewrite IH by lia. unfold strip_tail. rewrite (strip_zero_cons m r Enz).
       destruct (strip_zero_masks r); [reflexivity|]. now rewrite <- app_assoc.
+Qed.
+
+(* ---- CFList unmarshalling ---- *)
+Fixpoint chunks3 (n : nat) (l : list N) : list N :=
+  match n with
+  | O => []
+  | S n' => le_val (firstn 3 l) * 100 :: chunks3 n' (skipn 3 l)
+  end.
+
+Lemma chans_map_chunks b :
+  map (fun i => le_val (firstn 3 (skipn (3 * i) b)) * 100) [0; 1; 2; 3; 4]%nat = chunks3 5 b.
+Proof.
+  cbn [map chunks3 Nat.mul Nat.add]. rewrite !skipn_skipn'. cbn [Nat.add]. rewrite skipn_O. reflexivity.
+Qed.
+
+Lemma chunks3_concat chs rest : forallb freq_ok chs = true ->
+  chunks3 (length chs) (concat (map le3 chs) ++ rest) = chs.
+Proof.
+  induction chs as [|f r IH]; intros H; [reflexivity|].
+  cbn [forallb] in H. apply andb_true_iff in H as [Hf Hr]. unfold freq_ok in Hf. apply andb_true_iff in Hf as [Hm Hd].
+  cbn [length chunks3 map concat]. rewrite <- app_assoc.
+  rewrite (take_app_n 3 (le3 f)) by apply le_bytes_length.
+  rewrite (drop_app_n 3 (le3 f)) by apply le_bytes_length.
+  rewrite (IH Hr). f_equal. unfold le3. rewrite le_bytes_small.
+  - lia.
+  - change (256 ^ N.of_nat 3) with 16777216. change (2 ^ 24) with 16777216 in Hd. lia.
+Qed.
+
+Lemma cflist_unmarshal_shape b ty : length b = 15%nat ->
+  cflist_unmarshal (b ++ [ty]) =
+  if ty =? 1 then Ok (mkCFList (CFPMasks (masks_loop (firstn 14 b) 8 [] [])) ty)
+  else Ok (mkCFList (CFPChannels (chunks3 5 b)) ty).
+Proof.
+  intros L. unfold cflist_unmarshal. rewrite app_length, L. cbn [length Nat.add Nat.eqb negb]. cbv zeta.
+  rewrite (app_nth2 b [ty]) by lia. rewrite L, Nat.sub_diag. cbn [nth].
+  rewrite (take_app_n 15 b [ty] L). now rewrite chans_map_chunks.
+Qed.
+
+Lemma cflist_codec l : cfpayload_valid (cf_payload l) (cf_type l) = true ->
+  exists cf, cflist_marshal l = Ok cf /\ cflist_unmarshal cf = Ok (wire_cflist l).
+Proof.
+  destruct l as [[chs|ms|] ty]; cbn [cf_payload cf_type cfpayload_valid]; intros H; [| |discriminate].
+  - apply andb_true_iff in H as [H Ht]. apply andb_true_iff in H as [L H]. apply Nat.eqb_eq in L.
+    apply N.eqb_eq in Ht. subst ty.
+    eexists. split; [apply (cflist_marshal_chans chs 0 L H)|].
+    change (0 mod 256) with 0.
+    rewrite cflist_unmarshal_shape by (rewrite concat_le3_length; lia).
+    change (0 =? 1) with false. cbv iota.
+    rewrite <- (app_nil_r (concat (map le3 chs))). rewrite <- L. rewrite (chunks3_concat chs [] H). reflexivity.
+  - apply andb_true_iff in H as [H Ht]. apply andb_true_iff in H as [L H]. apply Nat.leb_le in L.
+    apply N.eqb_eq in Ht. subst ty.
+    assert (H16 : Forall (fun m => length m = 16%nat) ms).
+    { apply Forall_forall. intros m Hin. rewrite forallb_forall in H. apply Nat.eqb_eq. now apply H. }
+    eexists. split; [apply (cflist_marshal_masks ms 1 L)|].
+    change (1 mod 256) with 1.
+    rewrite cflist_unmarshal_shape by (rewrite app_length, concat_masks_length, repeat_length; lia).
+    change (1 =? 1) with true. cbv iota.
+    rewrite take_pad by (rewrite concat_masks_length; lia). rewrite concat_masks_length.
+    replace (14 - 2 * length ms)%nat with (2 * (7 - length ms))%nat by lia.
+    rewrite (masks_loop_spec (7 - length ms) ms H16 8 [] []) by lia.
+    unfold wire_cflist, strip_tail. cbn [cf_payload cf_type app]. destruct (strip_zero_masks ms); reflexivity.
+Qed.
+
+(* ---- join-accept payload unmarshalling ---- *)
+Local Transparent skipn firstn.
+
+Lemma ja_unmarshal_12 j0 j1 j2 n2 n1 n0 a3 a2 a1 a0 dl rxd :
+  joinaccept_unmarshal [j0; j1; j2; n2; n1; n0; a3; a2; a1; a0; dl; rxd] =
+  let '(o, r2, r1) := dec_dlsettings dl in
+  Ok (PLJoinAccept (le_val [j0; j1; j2]) [n0; n1; n2] [a0; a1; a2; a3] o r2 r1 rxd None).
+Proof. unfold joinaccept_unmarshal. cbn [length Nat.eqb negb andb nth skipn firstn rev app bind]. reflexivity. Qed.
+
+Lemma ja_unmarshal_28 j0 j1 j2 n2 n1 n0 a3 a2 a1 a0 dl rxd cf : length cf = 16%nat ->
+  joinaccept_unmarshal (j0 :: j1 :: j2 :: n2 :: n1 :: n0 :: a3 :: a2 :: a1 :: a0 :: dl :: rxd :: cf) =
+  let '(o, r2, r1) := dec_dlsettings dl in
+  do c <- cflist_unmarshal cf;
+  Ok (PLJoinAccept (le_val [j0; j1; j2]) [n0; n1; n2] [a0; a1; a2; a3] o r2 r1 rxd (Some c)).
+Proof.
+  intros L. unfold joinaccept_unmarshal. cbn [length]. rewrite L.
+  cbn [Nat.eqb negb andb nth skipn firstn rev app]. destruct (dec_dlsettings dl) as [[o r2] r1].
+  destruct (cflist_unmarshal cf); reflexivity.
+Qed.
+
+Local Opaque skipn firstn.
+
+Lemma le3_val x : x < 16777216 -> le_val [x mod 256; (x / 256) mod 256; (x / 256 / 256) mod 256] = x.
+Proof. intros H. apply (le_bytes_small 3 x). change (256 ^ N.of_nat 3) with 16777216. exact H. Qed.
+
+Theorem joinaccept_codec : forall p,
+  spec_valid p = true -> is_join_accept p ->
+  exists body, payload_marshal (pl p) = Ok body /\ Forall byte body /\
+               (length body = 12 \/ length body = 28)%nat /\
+               joinaccept_unmarshal body = Ok (wire_payload (pl p)).
+Proof.
+  intros [mt mj pl mc] Hv (jn & nid & da & o & rx2 & rx1 & rxd & cfl & Hp). cbn [Model.pl] in *. subst pl.
+  unfold spec_valid in Hv. cbn [Model.pl mtype major mic] in Hv.
+  apply andb_true_iff in Hv as [_ Hpl].
+  apply andb_true_iff in Hpl as [Hpl Hcf]. apply andb_true_iff in Hpl as [Hpl Hrxd]. apply andb_true_iff in Hpl as [Hpl Hrx1].
+  apply andb_true_iff in Hpl as [Hpl Hrx2]. apply andb_true_iff in Hpl as [Hpl Hda]. apply andb_true_iff in Hpl as [Hpl Hnid].
+  apply andb_true_iff in Hpl as [_ Hjn].
+  assert (Hjn' : jn < 16777216) by (change (2 ^ 24) with 16777216 in Hjn; lia).
+  assert (Hrxd' : rxd < 16) by lia.
+  destruct (ja_valid_marshal jn nid da o rx2 rx1 rxd cfl Hjn' ltac:(lia) ltac:(lia) Hrxd' Hcf)
+    as (dl & cf & Hdl & Bdl & Hdec & Ecf & Bcf & Lcf & Hb).
+  destruct (id_ok_inv 3 nid Hnid) as [Lnid Bnid]. destruct (id_ok_inv 4 da Hda) as [Lda Bda].
+  exists (le_bytes 3 jn ++ rev nid ++ rev da ++ [dl; rxd] ++ cf). split; [exact Hb|]. split; [|split].
+  - apply Forall_app. split; [apply le_bytes_ok|]. apply Forall_app. split; [now apply Forall_byte_rev|].
+    apply Forall_app. split; [now apply Forall_byte_rev|]. cbn [app].
+    constructor; [exact Bdl|]. constructor; [unfold byte; lia|exact Bcf].
+  - rewrite !app_length, !rev_length, le_bytes_length, Lnid, Lda. cbn [length].
+    destruct cfl; [rewrite Lcf|subst cf; cbn [length]]; lia.
+  - destruct nid as [|n0 [|n1 [|n2 [|? ?]]]]; try discriminate Lnid.
+    destruct da as [|a0 [|a1 [|a2 [|a3 [|? ?]]]]]; try discriminate Lda.
+    cbn [rev app le_bytes].
+    destruct cfl as [l|].
+    + rewrite ja_unmarshal_28 by exact Lcf. rewrite Hdec.
+      destruct (cflist_codec l Hcf) as (cf' & E' & Hu). rewrite Ecf in E'. injection E' as <-.
+      rewrite Hu. cbn [bind wire_payload]. now rewrite le3_val.
+    + subst cf. rewrite ja_unmarshal_12, Hdec. cbn [wire_payload]. now rewrite le3_val.
 Qed.
